@@ -138,7 +138,9 @@ def supervise(pid, tier, argv):
     on a busy machine; such a run is killed and repeated once, and a second overrun is a checker error (exit 3) - never a verdict"""
     import subprocess
     limit = float(os.environ.get("VERIF_WALL_LIMIT_S", "0") or 0) or (2400 if tier == "quick" else 7200)
-    env = dict(os.environ, VERIF_SUPERVISED="1")
+    # (a fixed hash seed: set iteration order decides the order in which facts reach the in-process solver, and with it which feasibility checks are decided within
+    #  their resource limit - without it the set of explored paths differed from run to run)
+    env = dict(os.environ, VERIF_SUPERVISED="1", PYTHONHASHSEED="0")
     for attempt in (1, 2):
         p = subprocess.Popen([sys.executable, "-m", "pyvc.check"] + argv, env=env, cwd=VERIF, start_new_session=True)
         try:
